@@ -6,6 +6,7 @@ import (
 	"strings"
 
 	"go.lstv.dev/util/sem"
+	"verif/firstuse"
 	"verif/libdefaults"
 	"verif/mc"
 	"verif/oracle"
@@ -178,6 +179,7 @@ func probeCore(p coreArg) (string, string) {
 func main() {
 	mc.Main("C06", "all ordered pairs over the complete universe of valid pre-releases over {0,1,2,9,a,B,-,.} up to the stated length plus the empty one; identifier lists up to length 3 over boundary numeric/alphanumeric identifiers; cores around 2^64-1 x pre-releases x build metadata; the specification's example chain; "+
 		"non-trivial = both pre-releases non-empty and different", func(r *mc.Run) {
+		firstuse.Phase(r, map[string][]string{"sem": {"compare"}})
 		r.Reset = reset
 		reset()
 		pPre := mc.NewProbe(r, "prerelease_pair", nil, probePre)
